@@ -699,6 +699,18 @@ def process_scenario(task):
             if vac == 'unsat':
                 out['errors'].append('vacuous scenario: preconditions unsatisfiable (path %d)' % pi)
                 continue
+            # reachability twin: the definedness hypotheses every identity query carries must be jointly satisfiable with the
+            # preconditions, otherwise the obligations of this scenario would hold vacuously (e.g. a denominator that is
+            # identically zero)
+            goals_ = [ob.goal for ob in ctx.obs.values() if ob.kind != 'fact' and not ob.nodefs and ob.goal is not sr.TRUE]
+            if goals_:
+                hy_ = _defs_hyps(goals_ + list(ctx.pre))
+                rv = smt.check(list(ctx.pre) + list(ctx.axioms) + hy_, timeout=min(timeout, 30))
+                out['reach'] = rv['res']
+                if rv['res'] == 'unsat':
+                    out['errors'].append('definedness hypotheses unsatisfiable together with the preconditions (a denominator is '
+                                         'identically zero?): obligations of path %d would be vacuous' % pi)
+                    continue
             batched = batch_discharge(ctx, task.get('batch', 10), min(6, timeout))
             for oid, ob in ctx.obs.items():
                 rec = {'oid': oid + suffix, 'required': ob.required, 'note': ob.note}
